@@ -169,6 +169,20 @@ CHECKS['C02'] = dict(
     technique='machine-checked proof (Coq) of the factory mapping and of deadlock freedom in a pipe model + differential execution across kinds',
 )
 
+CHECKS['C06'] = dict(
+    text=('Proof. Over the regenerated loop body / _send_result / _cleanup instruction lists of the three persistent kinds (tied to the proved '
+          'programs by eq_refl): for every target, defaults, sequence of enqueues, landing position (after any instruction of any iteration, also '
+          'between the counter increment and the write) and action, the results on the stream are a prefix of the expected sequence in order '
+          '(the first k or k+1), a graceful terminate is followed by exactly one end marker and a kill by none (EOF). The real persistent thread '
+          'worker gets a WorkerTerminatedError on every line event of its loop, send, cleanup and run functions (stream read back under a no-block '
+          'bound, also through an mp pipe watched with connection.wait as the Pool does); real terminate()/SIGKILL on busy and idle workers of '
+          'all three kinds.'),
+    design='5/C06',
+    note=('Known finding C06-R19 (thread worker on an mp pipe, landing before the end marker is written). EOF delivery is the kernel\'s. The remote '
+          'forwarder thread (_fetch_results) is exercised by the real terminate/kill cases only. ' + COMMON_NOTE),
+    technique='machine-checked proof (Coq) over instruction lists regenerated from the source + line-level injection sweep with a direct oracle',
+)
+
 NOT_YET = {}
 
 
